@@ -341,7 +341,7 @@ class World:
                     if k is not None:
                         obs_mem[k] = Fr(c.get_current_memory_usage())
         try:
-            pred = m.step(msus, masg, self.timeline_of, obs_failed, obs_mem)
+            pred = m.step(msus, masg, self.timeline_of, obs_failed, obs_mem, exc is not None)
         except Reject as r:
             rej = r
         except (AmbiguousScenario, Ambiguous):
